@@ -1,5 +1,6 @@
 import Percival.Proofs.NetIO
 import Percival.Proofs.Connect
+import Percival.Proofs.NetIOStep
 /-!
 # C06 — asynchronous read/write/connect/accept complete exactly once, byte-exact
 
@@ -142,5 +143,95 @@ example : runRead 100 (readInit 8 4) [.again, .data 1 [2], .again, .data 3 [4, 5
 example : (run true [.failNow, .hang, .asyncFail, .success, .success] 20).1 =
     [.sock 20 0, .close 20, .sock 21 1, .close 21, .sock 22 2, .close 22, .sock 23 3, .cb 23] := by decide
 example : firstSuccess true [.failNow, .hang, .asyncFail, .success, .success] 0 = some (some 3) := by decide
+
+/-! ## The function the executable runs
+
+`pmodel netio` applies `Model.NetIOStep.stepOp` to every parsed line (`Driver/Netio.lean` contains only the
+parser and the printer).  `stepOp` keeps, per descriptor, the scripted kernel queues and the outstanding
+requests, and `spin` drives every request with `runRead`/`runWrite`/`runAccept`/`Connect.spin`.  The theorems of
+this section lift the request theorems above through that bookkeeping: they are about the `Out` values the
+executable prints.  `OpOk` is the API contract of `network_read`/`network_write` (`0 < buflen`,
+`min ≤ buflen`); `StOk` says that every outstanding request satisfies the invariant of its loop. -/
+
+open Percival.Model Percival.Model.NetIOStep Percival.Proofs.NetIOStep
+
+/-- in every state reachable by operations within the API contract every outstanding request satisfies the
+invariant of its loop (`ReadInv` / `WriteInv`) -/
+theorem run_ops_state_ok (ops : List Op) (ho : ∀ op ∈ ops, OpOk op) : StOk (runOps {} ops).1 :=
+  runOps_ok ops {} stOk_init ho
+
+example : ∀ op ∈ [Op.krecv 3 [.again, .data 1 [2, 3]], .read 3 8 2, .read 3 8 2, .spin, .spin], OpOk op := by
+  intro op h; simp only [List.mem_cons, List.not_mem_nil, or_false] at h
+  rcases h with h | h | h | h | h <;> subst h <;> simp [OpOk]
+example : (runOps {} [.krecv 3 [.again, .data 1 [2, 3]], .read 3 8 2, .read 3 8 2, .spin, .spin]).2 =
+    [.ok, .ok, .busy, .spin [.read 3 3 [1, 2, 3]] [.r 3 [(8, 3), (8, -1)]], .spin [] []] := by decide
+
+/-- **never `FUEL`**: the fuel `weight q + 2` that `spin` gives the request loops is sufficient -/
+theorem spin_never_out_of_fuel (s : NetIOStep.St) (hs : StOk s) (l1 : List Completion) (l2 : List Trace)
+    (h : (stepOp s .spin).2 = .spin l1 l2) (i : Nat) :
+    Completion.readFuel i ∉ l1 ∧ Completion.writeFuel i ∉ l1 :=
+  spin_no_fuel s hs l1 l2 h i
+
+example : StOk {} ∧ (stepOp {} .spin).2 = .spin [] [] := ⟨stOk_init, by decide⟩
+
+/-- **read: byte-exact, reported once**.  A read callback `r<fd>:<n>:<data>` printed by a `spin` belongs to a
+read request `r` that was outstanding on that descriptor; afterwards the descriptor has no read request, so
+the callback cannot be reported again; and for `n > 0`: `minread ≤ n ≤ buflen` and the buffer handed over,
+followed by the peer's bytes still queued, is exactly what had arrived for this request in earlier `spin`s
+followed by the peer's bytes that were queued — nothing lost, duplicated or reordered. -/
+theorem spin_read_completion_exact (s : NetIOStep.St) (hs : StOk s) (l1 : List Completion) (l2 : List Trace)
+    (h : (stepOp s .spin).2 = .spin l1 l2) (i : Nat) (n : Int) (data : List UInt8)
+    (hc : Completion.read i n data ∈ l1) :
+    ∃ f r f', s.fds[i]? = some f ∧ f.rd = some r ∧ (stepOp s .spin).1.fds[i]? = some f' ∧ f'.rd = none ∧
+      (n = -1 ∨ n = 0 ∨ (n = data.length ∧ r.minlen ≤ data.length ∧ 1 ≤ data.length ∧ data.length ≤ r.buflen ∧
+        data ++ streamOf f'.rq = r.got ++ streamOf f.rq)) :=
+  spin_read_exact s hs l1 l2 h i n data hc
+
+/-- **write: a prefix of the buffer, reported once** -/
+theorem spin_write_completion_exact (s : NetIOStep.St) (hs : StOk s) (l1 : List Completion) (l2 : List Trace)
+    (h : (stepOp s .spin).2 = .spin l1 l2) (i : Nat) (n : Int) (sent : List UInt8)
+    (hc : Completion.write i n sent ∈ l1) :
+    ∃ f w f' pos, s.fds[i]? = some f ∧ f.wr = some w ∧ (stepOp s .spin).1.fds[i]? = some f' ∧ f'.wr = none ∧
+      sent = w.buf.take pos ∧ pos ≤ w.buf.length ∧ (n = -1 ∨ (n = pos ∧ w.minlen ≤ pos ∧ 1 ≤ pos)) :=
+  spin_write_exact s hs l1 l2 h i n sent hc
+
+example : (runOps {} [.ksend 2 [.room 1, .again, .room 7], .write 2 3 [9, 8, 7, 6], .spin]).2 =
+    [.ok, .ok, .spin [.write 2 4 [9, 8, 7, 6]] [.w 2 [(2, 2), (2, -1), (4, 2)]]] := by decide
+
+/-- **no request is lost**: an outstanding read stays on its descriptor through every operation except
+`cancel r` on that descriptor and the `spin` that reports its callback.  Together with
+`spin_read_completion_exact` (the request is gone after its callback): every read completes at most once,
+and is pending until it does or is cancelled. -/
+theorem read_request_never_lost (s : NetIOStep.St) (hs : StOk s) (op : Op) (i : Nat) (f : Fd) (r : ReadSt)
+    (hi : s.fds[i]? = some f) (hr : f.rd = some r) :
+    (∃ f', (stepOp s op).1.fds[i]? = some f' ∧ f'.rd.isSome = true) ∨ op = .cancel .r i ∨
+    (op = .spin ∧ ∃ l1 l2 n d, (stepOp s op).2 = .spin l1 l2 ∧ Completion.read i n d ∈ l1) :=
+  read_request_kept s hs op i f r hi hr
+
+example : (runOps {} [.read 3 8 4, .krecv 3 [.data 1 [2]], .spin, .krecv 3 [.data 3 [4]], .spin]).2 =
+    [.ok, .ok, .spin [] [.r 3 [(8, 2)]], .ok, .spin [.read 3 4 [1, 2, 3, 4]] [.r 3 [(6, 2)]]] := by decide
+
+/-- **connect: at most one callback per attempt**; after it the attempt is gone -/
+theorem spin_connect_at_most_once (s : NetIOStep.St) : ∃ l1 l2, (stepOp s .spin).2 = .spin l1 l2 ∧
+    (connectVals l1 = [] ∨ ∃ v, connectVals l1 = [v] ∧ s.conn.isSome = true ∧ (stepOp s .spin).1.conn = none) :=
+  spin_connect_once s
+
+/-- **connect: the callback the executable prints is the specified one**: an accepted `connect` followed by a
+`spin` reports exactly one callback carrying the socket of the first address that connects, or exactly one
+`-1`, or none when an address hangs and no timeout was asked for (`firstSuccess`, on the at most `maxAddrs`
+addresses the harness passes). -/
+theorem connect_then_spin_eq_spec (s : NetIOStep.St) (hc : s.conn = none) (timeo : Bool) (addrs : List AddrOutcome) :
+    (stepOp s (.connect timeo addrs)).2 = .ok ∧
+    ∃ l1 l2, (stepOp (stepOp s (.connect timeo addrs)).1 .spin).2 = .spin l1 l2 ∧
+      connectVals l1 =
+        match firstSuccess timeo (addrs.take maxAddrs) 0 with
+        | some (some i) => [((s.nextfd + i : Nat) : Int)]
+        | some none => [-1]
+        | none => [] := by
+  obtain ⟨h1, l1, l2, h2, h3⟩ := connect_spin_is_run s hc timeo addrs
+  exact ⟨h1, l1, l2, h2, by rw [h3]; exact connect_callback_exact timeo (addrs.take maxAddrs) s.nextfd⟩
+
+example : (runOps {} [.connect true [.failNow, .hang, .success], .spin, .spin]).2 =
+    [.ok, .spin [.connect 22] [.conn [.sock 20 0, .close 20, .sock 21 1, .close 21, .sock 22 2]], .spin [] []] := by decide
 
 end Percival.C06
